@@ -34,6 +34,7 @@ Rewrite rules (closed list, every application logged with source line):
   N1  `for (&a, &b) in E {B}` / `for (a, b) in E` -> `for __kv in E { let a = *__kv.0; ... }`
   N2  leading `if C { continue; }` in a `for` body -> `if !(C) { rest }`
   N3  `if let P = E && C {A} else {B}` -> `match E { P if C => {A} _ => {B} }`
+  N4  `E.map_or(LIT, |p| B)` -> `(match E { Some(p) => B, None => LIT })` (definition of Option::map_or)
   A   arm focus (see //@arms)
 Attributes (`#[..]`), doc comments and ordinary comments are dropped with the signature.
 
@@ -484,6 +485,10 @@ def rule_N1(src, lo, hi, enabled):
                     else:
                         lets.append("let %s = %s.%d;" % (p, var, idx))
                 out.append(("N1", toks[i + 1].start, toks[c].end, var))
+                expr = src[toks[c + 2].start:toks[j].start].strip()
+                if not expr.endswith(")"):
+                    # `for .. in &map` / `in map_ref`: Verus needs the explicit iterator
+                    out.append(("N1", toks[c + 2].start, toks[j - 1].end, "(%s).iter()" % expr.lstrip("&")))
                 out.append(("N1", toks[j].end, toks[j].end, " " + " ".join(lets)))
     return out
 
@@ -597,6 +602,79 @@ def rule_N3(src, lo, hi, enabled):
                 i = brace + 1
                 continue
         i += 1
+    return out
+
+
+def _recv_start(toks, dot_i):
+    """index of the first token of the postfix-expression receiver that ends right before toks[dot_i] (a `.`)"""
+    k = dot_i - 1
+    while k >= 0:
+        t = toks[k]
+        if t.text in (")", "]"):
+            d = 0
+            q = k
+            while q >= 0:
+                if toks[q].text in (")", "]"):
+                    d += 1
+                elif toks[q].text in ("(", "["):
+                    d -= 1
+                    if d == 0:
+                        break
+                q -= 1
+            k = q - 1
+            # a call: the callee path precedes
+            continue
+        if t.kind in ("ident", "num"):
+            if k - 1 >= 0 and toks[k - 1].text in (".", "::"):
+                k -= 2
+                continue
+            return k
+        if t.text == "?":
+            k -= 1
+            continue
+        break
+    return k + 1
+
+
+def rule_N4(src, lo, hi, enabled):
+    """E.map_or(D, |p| BODY) -> (match E { Some(p) => BODY, None => D })   (definition of Option::map_or;
+    D must be a literal / tuple of literals so that eager vs lazy evaluation cannot differ)"""
+    out = []
+    if "N4" not in enabled:
+        return out
+    toks = code_toks(tokenize(src[lo:hi], lo))
+    n = len(toks)
+    for i, t in enumerate(toks):
+        if t.kind == "ident" and t.text == "map_or" and i > 0 and toks[i - 1].text == "." and i + 1 < n and toks[i + 1].text == "(":
+            c = match_close(toks, i + 1)
+            # split args at top-level comma
+            j = i + 2
+            d = 0
+            comma = None
+            while j < c:
+                x = toks[j].text
+                if x in OPEN:
+                    j = match_close(toks, j)
+                elif x == "," and comma is None:
+                    comma = j
+                    break
+                j += 1
+            if comma is None or toks[comma + 1].text != "|":
+                raise VxError("N4: unsupported map_or form")
+            default = src[toks[i + 2].start:toks[comma].start].strip()
+            if not re.fullmatch(r"[\(\)0-9a-zA-Z_, ]*", default) or re.search(r"[a-zA-Z_]\w*\s*\(", default):
+                raise VxError("N4: map_or default is not a literal: %r" % default)
+            p2 = comma + 2
+            while toks[p2].text != "|":
+                p2 += 1
+            pat = src[toks[comma + 2].start:toks[p2].start].strip()
+            body_end = c - 1
+            if toks[body_end].text == ",":
+                body_end -= 1
+            body = src[toks[p2 + 1].start:toks[body_end].end]
+            rs = _recv_start(toks, i - 1)
+            recv = src[toks[rs].start:toks[i - 1].start]
+            out.append(("N4", toks[rs].start, toks[c].end, "(match %s { Some(%s) => %s, None => %s })" % (recv, pat, body, default)))
     return out
 
 
@@ -750,6 +828,8 @@ def name_return(sig_text, enabled, log, relfile, line):
             depth += 1
         elif t.text in (")", "]", ">") and t.kind == "punct":
             depth -= 1
+        elif t.text == ">>" and t.kind == "punct":
+            depth -= 2
         elif t.text == "->" and depth == 0:
             arrow = i
             break
@@ -763,6 +843,8 @@ def name_return(sig_text, enabled, log, relfile, line):
             d += 1
         elif t.text in (")", "]", ">"):
             d -= 1
+        elif t.text == ">>":
+            d -= 2
         elif t.kind == "ident" and t.text == "where" and d == 0:
             end = t.start
             break
@@ -804,7 +886,7 @@ def loop_headers(body):
 # --------------------------------------------------------------------------------------
 # vspec processing
 # --------------------------------------------------------------------------------------
-ALL_RULES = ["D1", "D2", "D3", "D5", "R1", "N1", "N2", "N3"]
+ALL_RULES = ["D1", "D2", "D3", "D5", "R1", "N1", "N2", "N3", "N4"]
 KV_RE = re.compile(r'(\w+)=("([^"]*)"|\S+)')
 
 
@@ -1020,6 +1102,7 @@ class Gen:
         edits += rule_N1(src, lo, hi, enabled)
         edits += rule_N2(src, lo, hi, enabled)
         edits += rule_N3(src, lo, hi, enabled)
+        edits += rule_N4(src, lo, hi, enabled)
         dropped_arms = []
         if arms:
             a_edits, dropped_arms = rule_A(src, lo, hi, arms)
